@@ -57,6 +57,8 @@ def cases(tier, seed):
                     preflat=False, wl_from_data=False, theory="Mie", fit_lens_angle=False, det_z=0.0, flat_then_npixels=False, seed=[seed, "zupper", 0]))
     out.append(dict(out[-1], id="fit-zupper-guess-nmpfit", z_guess_on_bound=True, seed=[seed, "zupper", 1]))
     out.append({"id": "fit-shortcut", "kind": "shortcut", "strategy": "nmpfit", "subset": False, "cost": 10})
+    for which in ("lower_edge_all_steps_negative", "rejected_trial_step"):
+        out.append({"id": "fit-recorded-%s" % which, "kind": "recorded", "which": which, "strategy": "nmpfit", "subset": False, "cost": 10})
     for edge in ("upper", "lower"):
         out.append({"id": "fit-pegged-%s" % edge, "kind": "pegged", "edge": edge, "strategy": "nmpfit", "subset": False, "cost": 10})
     # the starting value of one parameter sits exactly on an edge of its prior ("no attenuation": alpha = 1 under Uniform(0.5, 1)) while
@@ -118,6 +120,41 @@ def _run_startedge(case):
             "flags": {"within_bounds": bool(all(bounds[k][0] <= got[k] <= bounds[k][1] for k in bounds))}, "got": got, "truth": truth, "err": err}
 
 
+RECORDED = {
+    # starting value of alpha ON the lower edge of its prior, truth 0.1 % inside: every component of the first step is negative (F138)
+    "lower_edge_all_steps_negative": dict(true=dict(x=2.95, y=1.94, z=5.93, r=0.88, alpha=0.666),
+                                          guess=dict(x=2.95 * 1.01, y=1.94 * 1.02, z=5.93, r=0.88 * 1.02, alpha=0.666 * 0.999),
+                                          bounds=dict(x=(2, 4), y=(1, 3), z=(4, 8), r=(0.5, 1.2), alpha=(0.666 * 0.999, 1.0))),
+    # a sphere outside the field of view, every start inside its prior and at most 3 % off: a trial step is rejected on the way (F139)
+    "rejected_trial_step": dict(true={"x": -2.9159382980128528, "y": -2.1654662104855467, "z": 5.029865039170116, "r": 0.5232677344304448, "alpha": 0.8471196642544022},
+                                guess={"x": -2.8392270848988854, "y": -2.1387911529914905, "z": 5.1771735154027, "r": 0.5380622577598927, "alpha": 0.8461969673868031},
+                                bounds={"x": (-3.5, -2.0), "y": (-2.6, -1.5), "z": (4.02, 6.18), "r": (0.42, 0.64), "alpha": (0.6767730345359226, 1.0165)}),
+}
+
+
+def _run_recorded(case):
+    """recorded single-sphere problems (position, radius, scaling free; noise-free data of the model's own forward calculation)"""
+    import holopy as hp
+    from holopy.core.prior import Uniform
+    from holopy.inference import AlphaModel, NmpfitStrategy, LeastSquaresScipyStrategy
+    from holopy.scattering import Sphere
+    rec = RECORDED[case["which"]]
+    optics = dict(medium_index=1.33, illum_wavelen=0.66, illum_polarization=(1, 0))
+    det = hp.detector_grid(shape=20, spacing=0.2)
+
+    def mk(g):
+        u = {k: Uniform(*rec["bounds"][k], guess=g[k]) for k in g}
+        return AlphaModel(Sphere(n=1.58, r=u["r"], center=[u["x"], u["y"], u["z"]]), alpha=u["alpha"], noise_sd=0.01, **optics)
+    gen = mk(rec["true"])
+    data = gen.forward(gen.initial_guess, det)
+    strat = NmpfitStrategy() if case["strategy"] == "nmpfit" else LeastSquaresScipyStrategy()
+    res = hp.fit(data, mk(rec["guess"]), strategy=strat)
+    got = dict(zip(["r", "x", "y", "z", "alpha"], [res.parameters[k] for k in ("r", "center.0", "center.1", "center.2", "alpha")]))
+    err = max(abs(got[k] / rec["true"][k] - 1) for k in got)
+    return {"resid": {"recovery": fnum(err)}, "flags": {"within_bounds": bool(all(rec["bounds"][k][0] <= got[k] <= rec["bounds"][k][1] for k in got))},
+            "got": got, "truth": rec["true"], "err": err}
+
+
 def _run_shortcut(case):
     """hp.fit(data, scatterer, parameters=[names]) -- the short form that builds the model itself -- takes the scatterer's centre in any
     sequence type and gives the same fit (F117)"""
@@ -142,6 +179,8 @@ def run_case(case):
         return _run_shortcut(case)
     if case.get("kind") == "startedge":
         return _run_startedge(case)
+    if case.get("kind") == "recorded":
+        return _run_recorded(case)
     import holopy as hp
     from holopy.core.prior import Uniform
     from holopy.core.metadata import update_metadata
